@@ -514,7 +514,7 @@ def check(ctx):
                                   'under the configuration %s the decoder can hand the element to %s while the encoder hands the value to %s only: the same encoder output is read '
                                   'by a different child protocol depending on the document (element name, key), so the codec cannot always decode what it wrote'
                                   % ({k: v for k, v in asg.items()} or '{}', [sorted(x) for x in extra], [sorted(x) for x in es]), stmt='%s delegations differ from %s' % (dn, en))
-    if n7 < 20 or n7d < 8:
+    if n7 < 20 or n7d < 4:
         raise AnalysisError('C02.R7 examined only %d method pairs (%d that delegate to children)' % (n7, n7d))
 
 
